@@ -76,11 +76,34 @@ func (m *Mast) loadPersisted(ctx context.Context, l string) (*mastNode, error) {
 	if m.debug {
 		fmt.Printf("loaded node %s->%v\n", l, node)
 	}
-	validateNode(ctx, &node, m)
+	if err := checkLoadedNode(&node, m); err != nil {
+		return nil, fmt.Errorf("invalid node %s: %w", l, err)
+	}
 	if m.nodeCache != nil {
 		m.nodeCache.Add(cacheKey, &node)
 	}
 	return &node, nil
+}
+
+// checkLoadedNode reports, as an error, the inconsistencies that validateNode
+// panics about: bytes coming from the store are input, not an invariant.
+func checkLoadedNode(node *mastNode, m *Mast) error {
+	if len(node.Link) != len(node.Key)+1 {
+		return fmt.Errorf("%d links but %d keys", len(node.Link), len(node.Key))
+	}
+	if len(node.Link) != len(node.Value)+1 {
+		return fmt.Errorf("%d links but %d values", len(node.Link), len(node.Value))
+	}
+	if len(node.Key) > 1 {
+		cmp, err := m.keyOrder(node.Key[0], node.Key[1])
+		if err != nil {
+			return fmt.Errorf("key order: %w", err)
+		}
+		if cmp >= 0 {
+			return fmt.Errorf("keys out of order; ensure using same key order function as source")
+		}
+	}
+	return nil
 }
 
 func unmarshalNode(m *Mast, nodeBytes []byte, l string, node *mastNode) error {
